@@ -62,6 +62,9 @@ type worldB struct {
 	r      *simkit.Run
 	s      *simkit.Sched
 	tmc    *simtm.Chain
+	// stalled: node names whose seam requests are not released for now (slow / stopped
+	// process, e.g. SIGSTOP or a long GC or I/O pause); its timers keep running
+	stalled map[string]bool
 	tm     *simtm.Node
 	eth    *simeth.Chain
 	net    *simnet.Net
@@ -78,7 +81,7 @@ type worldB struct {
 }
 
 func newWorldB(r *simkit.Run, n, t int, L int64) *worldB {
-	w := &worldB{r: r, n: n, t: t, L: L}
+	w := &worldB{r: r, n: n, t: t, L: L, stalled: map[string]bool{}}
 	w.s = simkit.NewSched(r)
 	w.ctx, w.cancel = context.WithCancel(context.Background())
 	w.net = simnet.New(w.s, simnet.Config{MinDelay: time.Millisecond, MaxDelay: 5 * time.Millisecond})
@@ -96,6 +99,9 @@ func newWorldB(r *simkit.Run, n, t int, L int64) *worldB {
 	// genesis: all keypers, threshold t, eon counter 0, check-in update fork enabled
 	w.tmc.InitChain(addrs, uint64(t), 0, app.NewForkHeightsAllEnabled(), simtm.GenesisValidators(1))
 	w.s.Eligible = func(rq *simkit.Req) bool {
+		if w.stalled[rq.Node] {
+			return false // a stalled process makes no progress at all
+		}
 		if req, ok := rq.Info.(*pgsim.Request); ok && req.Kind == pgsim.ReqLockWait {
 			for _, nd := range w.nodes {
 				if nd.name == rq.Node {
